@@ -270,7 +270,7 @@ def props_of(conj, sig, group):
     op = sig.get('op', '-')
     ps = set()
     if kind in ('hostiledir', 'rootops', 'ahostile'):
-        ps.add('C12' if conj == 'occupied' else 'C13')
+        ps.add('C12' if conj == 'occupied' else 'C07' if conj == 'twinroot' else 'C13')
         return ps
     if kind == 'confine':
         ps.add('C07')
